@@ -277,6 +277,8 @@ partial def loop (h : IO.FS.Stream) (out : IO.FS.Stream) (st : St) : IO Unit := 
       | ["close"] => .accept [] .eof
       | ["data", hx, "reset"] => .accept (parseHexBytes hx) .reset
       | ["data", hx, _] => .accept (parseHexBytes hx) .eof
+      | ["data", hx, "reset", _] => .accept (parseHexBytes hx) .reset
+      | ["data", hx, _, _] => .accept (parseHexBytes hx) .eof
       | _ => .accept [] .eof
     let r := tcpRun env st.cfg st.now st.table events
     let sleeps := (r.2.filter fun a => match a with | .sleep _ => true | _ => false).length
